@@ -695,6 +695,37 @@ theorem C13_reachable_string_value_full (env : Env) (cs : List PCall) (hw : ∀ 
   obtain ⟨va, la, _⟩ := C13_reachable_valid_full env cs hw r hr p a ha
   exact ⟨C13_string_value env' a va la hk, fun s hs => C13_text_content_string_value env' a va la hk s hs⟩
 
+/-- ⟦C13_reachable_shallow_ignore_full⟧ `shallow_equal_ignore_attributes` between any two nodes of a store reached
+    by parses and API calls, for EVERY ignore list: equality of the canonical values with the listed names
+    removed — `C13_shallow_ignore` with its four structural hypotheses discharged by the history.  What remains
+    is the machine-size hypothesis (the counter of the Rust loop is a `usize`): the first node has fewer than
+    2^64 attributes, which no history of fewer than 2^64 calls can violate but which is not a structural fact. -/
+theorem C13_reachable_shallow_ignore_full (env : Env) (cs : List PCall) (hw : ∀ c ∈ cs, c.wellKinded) :
+    ∀ r₁ ∈ ((PStore.init env).run cs).forest.roots,
+    ∀ r₂ ∈ ((PStore.init env).run cs).forest.roots,
+    ∀ (p₁ p₂ : Path) (a b : Tree), r₁.erase.at? p₁ = some a → r₂.erase.at? p₂ = some b →
+      a.attrLen < usizeModulus → ∀ ign : List Nat,
+      (shallowEqualIgnoreAttributes a b ign = true ↔
+        cvalueIgnoring ign a.value a.kids = cvalueIgnoring ign b.value b.kids) := by
+  intro r₁ h₁ r₂ h₂ p₁ p₂ a b ha hb la ign
+  obtain ⟨_, _, _, _, oa, na⟩ := C13_reachable_valid_full env cs hw r₁ h₁ p₁ a ha
+  obtain ⟨_, _, _, _, ob, nb⟩ := C13_reachable_valid_full env cs hw r₂ h₂ p₂ b hb
+  exact C13_shallow_ignore a b ign oa ob na nb la
+
+/-- ⟦C13_reachable_shallow_full⟧ `shallow_equal` between any two nodes of such a store (any kinds, attribute and
+    namespace nodes included): equality of the canonical VALUES (kind, name, the attribute map; nothing about
+    children) — `C13_shallow` with the structural hypotheses discharged. -/
+theorem C13_reachable_shallow_full (env : Env) (cs : List PCall) (hw : ∀ c ∈ cs, c.wellKinded) :
+    ∀ r₁ ∈ ((PStore.init env).run cs).forest.roots,
+    ∀ r₂ ∈ ((PStore.init env).run cs).forest.roots,
+    ∀ (p₁ p₂ : Path) (a b : Tree), r₁.erase.at? p₁ = some a → r₂.erase.at? p₂ = some b →
+      a.attrLen < usizeModulus →
+      (shallowEqual a b = true ↔ (canon a).value = (canon b).value) := by
+  intro r₁ h₁ r₂ h₂ p₁ p₂ a b ha hb la
+  obtain ⟨_, _, _, _, oa, na⟩ := C13_reachable_valid_full env cs hw r₁ h₁ p₁ a ha
+  obtain ⟨_, _, _, _, ob, nb⟩ := C13_reachable_valid_full env cs hw r₂ h₂ p₂ b hb
+  exact C13_shallow a b oa ob na nb la
+
 /-! ### Non-vacuity: parse, edit, ask (from the tables of `Xot::new()`, `Env.fresh`)
 
   PARSE `fullText` of Props/C04.lean, `<r xmlns:p="urn:a"><p:a>t</p:a></r>` (handles 0..4), then build by hand
@@ -732,5 +763,12 @@ example : canon c13FullRootA.erase ≠ canon c13FullRootB.erase := fun h =>
 example : stringValue {} c13FullRootA.erase = ['t'] :=
   ((C13_reachable_string_value_full Env.fresh c13FullCalls c13FullCalls_wellKinded
     c13FullRootA c13FullRootA_mem [] _ rfl (Or.inl rfl) {}).1).trans (by decide)
+/-- The parsed inner element and the hand-built element (one more declaration) are `shallow_equal`, by
+    `C13_reachable_shallow_full`. -/
+example : shallowEqual (.node (.element 3) [.node (.text ['t']) []])
+    (.node (.element 3) [.node (.namespace 2 2) [], .node (.text ['t']) []]) = true :=
+  (C13_reachable_shallow_full Env.fresh c13FullCalls c13FullCalls_wellKinded
+    c13FullRootA c13FullRootA_mem c13FullRootB c13FullRootB_mem [0, 1] [] _ _ (by decide) (by decide)
+    (by decide)).mpr (by decide)
 
 end XotModel.Props
